@@ -79,7 +79,7 @@ def extract(unit_name, src_rel, cfg, roots, outdir, extra_flags=None):
         raise Undecided('extraction of %s broke: %s' % (src_rel, e))
     hdr = "/* GENERATED on every run by tools/cxx2c.py from %s (clang AST). Do not edit. */\n" % src_rel
     with open(os.path.join(outdir, unit_name + '_types.h'), 'w') as f:
-        f.write(hdr + lw.emit_types())
+        f.write(hdr + cfg.get('types_prelude', '') + lw.emit_types())
     with open(os.path.join(outdir, unit_name + '_protos.h'), 'w') as f:
         f.write(hdr + lw.emit_protos())
     with open(os.path.join(outdir, unit_name + '_bodies.c'), 'w') as f:
@@ -186,7 +186,7 @@ def run_job(job, workdir):
             return r
     else:
         b = a
-    cb = ['cbmc', b, '--json-ui', '--trace'] + DEFAULT_CHECKS + BACKENDS[job.backend] + job.cbmc_args
+    cb = ['cbmc', b, '--json-ui', '--trace', '--drop-unused-functions'] + DEFAULT_CHECKS + BACKENDS[job.backend] + job.cbmc_args
     if job.unwind is not None:
         cb += ['--unwind', str(job.unwind), '--unwinding-assertions']
     r.cmds.append(' '.join(cb))
@@ -232,7 +232,7 @@ def run_job(job, workdir):
             r.n_fail += 1
             r.failed.append(ob)
             if not r.cex and p.get('trace'):
-                r.cex = trace_inputs(p['trace'], job.inputs)
+                r.cex = trace_inputs(p['trace'], job.inputs, job.harness)
         else:
             r.n_err += 1
     if ignoring:
@@ -257,13 +257,16 @@ def run_job(job, workdir):
     return r
 
 
-def trace_inputs(trace, names):
+def trace_inputs(trace, names, harness=None):
     vals = {}
     for st in trace:
         if st.get('stepType') != 'assignment':
             continue
+        fn = (st.get('sourceLocation') or {}).get('function')
+        if harness is not None and fn is not None and fn != harness:
+            continue
         lhs = st.get('lhs', '')
-        if lhs in names:
+        if lhs in names or any(n.endswith('*') and lhs.startswith(n[:-1]) for n in names):
             v = st.get('value', {})
             d = v.get('data')
             if d is None and 'binary' in v:
